@@ -416,6 +416,41 @@ def unicast(ctx):
             any(c == sdest and pol for c, pol in p.cond)
         if not addressed:
             continue
+        # which table: connections for a unique name (':...'), name owners
+        # for a well-known one - decided by the NAME alone
+        uniq = None
+        for c, pol in p.cond:
+            if kind(c) == 'cmp' and c[1] in ('==', '!=') and \
+                    c[2] == ('sub', sdest, C(0)) and c[3] == C(':'):
+                uniq = (c[1] == '==') == pol
+            if kind(c) == 'call' and kind(c[2]) == 'attr' and \
+                    c[2][1] == sdest and c[2][2] == 'startswith' and \
+                    c[3] == (C(':'),):
+                uniq = pol
+        looked = set()
+        for t in [c for c, _ in p.cond] + [
+                c[2][1] for c in p.calls(deep=False)
+                if kind(c[2]) == 'attr' and c[2][2] == 'sendMessage']:
+            for x in walk_term(t):
+                if is_lookup(x):
+                    y = x
+                    while kind(y) == 'sub' and not (
+                            kind(y[1]) == 'attr' and y[1][1] == selft):
+                        y = y[1]
+                    tbl = y[1][2] if kind(y) == 'sub' else y[2][1][2]
+                    looked.add(tbl)
+        if uniq is not None and looked & {'clients', 'busNames'}:
+            want = 'clients' if uniq else 'busNames'
+            ctx.ob('C14.D4', sm.qualname, 'table-by-kind-of-name:%s'
+                   % ('unique' if uniq else 'well-known'),
+                   looked & {'clients', 'busNames'} == {want},
+                   'a %s destination must be resolved in self.%s; this path '
+                   'looks it up in %s [%s] - a message of that type to a '
+                   'name of that kind is dropped' % (
+                       'unique (":...")' if uniq else 'well-known', want,
+                       sorted(looked), '; '.join(
+                           '%s is %s' % (term_str(c)[:50], pol)
+                           for c, pol in p.cond[-3:])))
         handed = [c for c in p.calls(deep=False) if kind(c[2]) == 'attr' and
                   c[2][2] == 'sendMessage' and c[3] == (mp,)]
         if handed:
